@@ -229,6 +229,33 @@ class Analysis:
                     break
         return V
 
+    def check_collect_consistency(self):
+        """Whatever a collector does with its cache when a consumer of a flushed batch raised (keep it and hand
+        the elements on again, or drop the batch - the statement fixes neither): every batch it emits carries the
+        metadata of exactly its own members.  The members of a batch are a run of consecutive arrivals; the
+        metadata must be that run's."""
+        V = []
+        for nid in self.order:
+            n = self.spec[nid]
+            if n['op'] != 'collect' or n.get('cache_maxlen') or n.get('md_cache_maxlen'):
+                continue
+            ins = [i for i in self.ins[nid] if not getattr(i, 'own_fail', False)]
+            vals = [i.value for i in ins]
+            for o in self.outs[nid]:
+                if not isinstance(o.value, tuple):
+                    continue
+                k = len(o.value)
+                runs = [a for a in range(0, len(vals) - k + 1) if tuple(vals[a:a + k]) == o.value and (k == 0 or ins[a + k - 1].seq < o.seq)]
+                if not runs:
+                    continue
+                want = [tuple(m for i in ins[a:a + k] for m in i.md) for a in runs]
+                if tuple(o.md) not in want:
+                    V.append(Violation('C10', 'C10.content', o.seq,
+                                       'collect %d emitted the batch %r with metadata %r; its members arrived with %r'
+                                       % (nid, o.value, tuple(o.md), want[-1]), node_op='collect'))
+                    return V
+        return V
+
     def check_md_shape(self):
         V = []
         for nid in self.order:
